@@ -6,8 +6,12 @@ import PasskeyVerif.Spec.AuthData
 namespace PasskeyVerif.Driver.AuthData
 open PasskeyVerif PasskeyVerif.AuthData
 
-/-- `ciborium::de::from_reader` on the remaining bytes: length of the first item -/
-def skip (bs : Bytes) : Option Nat := Cbor.skip bs
+/-- `ciborium::de::from_reader` on the remaining bytes: length of the first item; ciborium's recursion
+limit refuses an item nested deeper than 256 containers -/
+def skip (bs : Bytes) : Option Nat :=
+  match Cbor.decode1 bs with
+  | some (x, r) => if x.depth > 256 then none else some (bs.length - r.length)
+  | none => none
 
 /-- `CoseKey::from_cbor_value`: a map with a key type (label 1) -/
 def validKey (bs : Bytes) : Bool :=
